@@ -16,6 +16,19 @@
    flush, close, free, `with` blocks entered and left, reads/writes during which the controller
    raises or with TruncationWarning turned into an exception), over every base address and
    length, over every memory content. *)
+(* Openly, what these theorems do NOT say (harness-only or assumed):
+   * "every operation fails" after close/free is proved for the guarded methods; len(), close()/__exit__ on a
+     closed view and __enter__ still answer (C13_len_close_enter_answer_when_dead_refuted) -- as in the abstract file.
+   * seek(n, 2) refines the file's seek_end(-n), not seek(n, 2) (C13_seek_end_sign_refuted; known finding).
+   * A transport fault is ATOMIC in the model: the controller's read/write/sdram_free either happens or raises
+     having done nothing.  C13_failed_transfer_leaves_state therefore includes the memory; for the real,
+     chunked MachineController.write a fault can leave a prefix written (C07's subject).  What C13 itself
+     contributes is the view's part: cursor, flags and list of views unchanged.
+   * Not modelled: the caller dropping its reference to a view (garbage collection; harness op `drop`), which
+     exception a with block is left by (__exit__ ignores it: checked literally by tools/dump_c13.py), read(None)
+     and non-integer arguments (TypeError, outside the domain), resolution of x/y/app_id from a context (C18).
+     A non-slice index `view[3]` takes the same branch as a non-contiguous slice (the else of the contiguity
+     test): it is the model's `Slice _ _ (Some k)`, k <> 1, and is run by the harness as op "index". *)
 From Coq Require Import ZArith List Bool.
 Require Import Rig.Generated.GenMemIO Rig.Model.Base Rig.Model.MemIO Rig.Spec.MemIO Rig.Proofs.MemIO Rig.Proofs.MemIORefine.
 Import ListNotations.
@@ -83,6 +96,29 @@ Theorem C13_refines_file :
     /\ represents base (run st ops) (arun f (map abs_op ops)).
 Proof. exact refines_file. Qed.
 
+(* the two composed: MemoryIO(s, e) over any memory m IS the file holding m's bytes of [s, max(s,e)), for every
+   history; likewise the view sdram_alloc_as_filelike(size) makes of a block at `start` *)
+Theorem C13_refines_file_init :
+  forall s e m ops,
+    let f := afile_init (mem_read m s (Z.max s e - s)) in
+    Forall2 (output_is s) (map snd (trace (init s e m) ops)) (atrace f (map abs_op ops))
+    /\ represents s (run (init s e m) ops) (arun f (map abs_op ops)).
+Proof. exact refines_file_init. Qed.
+
+Theorem C13_refines_file_filelike :
+  forall start size m ops, 0 <= size ->
+    let f := afile_init (mem_read m start size) in
+    Forall2 (output_is start) (map snd (trace (alloc_as_filelike start size m) ops)) (atrace f (map abs_op ops))
+    /\ represents start (run (alloc_as_filelike start size m) ops) (arun f (map abs_op ops)).
+Proof. exact refines_file_filelike. Qed.
+
+(* "bytes last written", through ANOTHER view: all windows of the file share its bytes, so what a write stores at
+   file positions [p, p+|bs|) -- through a slice of a slice, say -- is what a read of those positions returns
+   through the root or any other window (the file operations are `splice` and `sub` at lo + cursor) *)
+Theorem C13_file_positions_shared :
+  forall d p bs, 0 <= p -> p + zlen bs <= zlen d -> sub (splice d p bs) p (zlen bs) = bs.
+Proof. exact sub_splice. Qed.
+
 (* the hypothesis is met by every fresh MemoryIO(s, e) over every memory *)
 Theorem C13_init_represents :
   forall s e m, represents s (init s e m) (afile_init (mem_read m s (Z.max s e - s))).
@@ -143,7 +179,9 @@ Proof. exact write_truncation. Qed.
 (* read/write during which the machine controller raises (FaultRead/FaultWrite: the exception comes
    out as Failed 2), or with TruncationWarning raised as an exception (StrictRead/StrictWrite: Failed 3),
    or on a dead view (Failed 0): whenever such a call fails, the WHOLE state is as before -- the
-   position of the view, the views, the memory -- and nothing was recorded as transferred. *)
+   position of the view, the views, the memory -- and nothing was recorded as transferred.
+   ASSUMPTION carried by the memory part: the model's controller fails atomically (see the header); the view's
+   own part (cursor, flags, views) does not depend on it. *)
 Theorem C13_failed_transfer_leaves_state :
   forall st i vo st' out k,
     disturbed vo = true -> step st (OView i vo) = (st', out) -> o_res out = Failed k ->
@@ -207,6 +245,26 @@ Theorem C13_dead_after_close_or_free :
                      forall vo, o = OView i vo -> guarded vo = true -> out = err 0)
            (trace st ops).
 Proof. exact dead_forever. Qed.
+
+(* The literal clause "every operation fails" is FALSE for the unguarded methods, on every dead view: len()
+   answers, __enter__ returns the object, and on a closed view close() and __exit__ return None.  (The abstract
+   file of Spec/MemIO.v makes the same exemptions; the harness does not judge them.) *)
+Theorem C13_len_close_enter_answer_when_dead_refuted :
+  forall st i v,
+    nth_error (st_views st) i = Some v -> dead (st_freed st) v = true ->
+    step st (OView i Len) = (st, ok (VInt (vlen v)))
+    /\ step st (OView i Enter) = (st, ok VNone)
+    /\ (v_closed v = true ->
+          step st (OView i Close) = (st, ok VNone) /\ step st (OView i Exit) = (st, ok VNone)).
+Proof. exact unguarded_answer_when_dead. Qed.
+
+Example C13_dead_view_instance :
+  forall m,
+    let st := run (init 100 110 m) [OView 0 Close] in
+    (exists v, nth_error (st_views st) 0 = Some v /\ dead (st_freed st) v = true /\ v_closed v = true)
+    /\ snd (step st (OView 0 Len)) = ok (VInt 10) /\ snd (step st (OView 0 Close)) = ok VNone
+    /\ snd (step st (OView 0 (Read 1))) = err 0.
+Proof. exact unguarded_answer_example. Qed.
 
 (* close() of view i, whatever it returns, leaves view i dead and issues no controller call *)
 Theorem C13_close_kills :
